@@ -1880,3 +1880,88 @@ for _fn, _mult, _sel in (("select_query_peers", 2, "select_peers"), ("select_sto
     ensures
         self.trust_peer_selector.is_none() ==> fcn_post(routing_g, key, count, r@), // @C16/select/with_trust_selection_disabled_the_choice_is_exactly_the_closest_candidates_in_distance_order
 """ % _mult})
+
+# --- find_closest_nodes_local: exactness of the answer over (connected peers with an address) + (what the engine's find_nodes returned)
+it = UNITS["mgr"]["items"][-1]
+assert it["fn"] == "find_closest_nodes_local"
+it["rewrite"] = list(it["rewrite"]) + [
+    (r"for \(peer_id, peer_info\) in peers\.iter\(\)", """let peers_it = peers.iter();
+            proof {
+                let s0 = peers_it.remaining();
+                assert(forall|i: int| 0 <= i < s0.len() ==> peers@.contains_key(*(#[trigger] s0[i]).0) && peers@[*s0[i].0] == *s0[i].1);
+                assert(forall|p: String| peers@.contains_key(p) ==> exists|i: int| 0 <= i < s0.len() && *(#[trigger] s0[i]).0 == p);
+            }
+            for (peer_id, peer_info) in it_p: peers_it""", "iterator expression bound to a local before the loop (a for-loop evaluates it once either way) so that a proof block can name it; ghost iterator binder"),
+    (r"for node in nodes", "let ghost found = nodes@;\n proof { verif_found = found; }\n for node in it_n: nodes", "ghost copy of the engine's answer + ghost iterator binder (specification only)"),
+    (r"Err\(_e\) => \{", """Err(_e) => {
+                    proof {
+                        assert forall|k: Key| #[trigger] known(self, peers_g@, verif_found, k) implies seen_keys@.contains(k) by {
+                            assert(known(self, peers_g@, Seq::<NodeInfo>::empty(), k));
+                        }
+                    }""", "proof block (specification only)"),
+    (r"let mut seen_keys: HashSet<Key> = HashSet::new\(\);", "let mut seen_keys: HashSet<Key> = HashSet::new();\n let ghost mut verif_found: Seq<NodeInfo> = Seq::empty();", "ghost variable (specification only)"),
+]
+it["loops"] = {
+    0: """
+                invariant listed_once(all_nodes@, seen_keys@),
+                    forall|i: int| 0 <= i < it_p.seq().len() ==> peers_g@.contains_key(*(#[trigger] it_p.seq()[i]).0) && peers_g@[*it_p.seq()[i].0] == *it_p.seq()[i].1,
+                    forall|p: String| peers_g@.contains_key(p) ==> exists|i: int| 0 <= i < it_p.seq().len() && *(#[trigger] it_p.seq()[i]).0 == p,
+                    forall|i: int| 0 <= i < it_p.index@ ==> ((#[trigger] it_p.seq()[i]).1.is_connected && !is_local(self, it_p.seq()[i].0@) && it_p.seq()[i].1.addresses@.len() > 0
+                        ==> seen_keys@.contains(it_p.seq()[i].1.dht_key)),
+""",
+    1: """
+                        invariant listed_once(all_nodes@, seen_keys@), found == it_n.seq(),
+                            forall|k: Key| #[trigger] known(self, peers_g@, Seq::<NodeInfo>::empty(), k) ==> seen_keys@.contains(k),
+                            forall|j: int| 0 <= j < it_n.index@ ==> (!is_local(self, hex_of((#[trigger] found[j]).id)) ==> seen_keys@.contains(found[j].id.0.0)),
+""",
+}
+it["after_loop"] = {
+    1: """proof {
+                        assert forall|k: Key| #[trigger] known(self, peers_g@, verif_found, k) implies seen_keys@.contains(k) by {
+                            if exists|j: int| 0 <= j < found.len() && !is_local(self, hex_of((#[trigger] found[j]).id)) && found[j].id.0.0 == k {
+                            } else {
+                                assert(known(self, peers_g@, Seq::<NodeInfo>::empty(), k));
+                            }
+                        }
+                    }""",
+    0: """proof {
+                assert forall|k: Key| #[trigger] known(self, peers_g@, Seq::<NodeInfo>::empty(), k) implies seen_keys@.contains(k) by {
+                    let p = choose|p: String| #[trigger] peers_g@.contains_key(p) && peers_g@[p].is_connected && !is_local(self, p@) && peers_g@[p].addresses@.len() > 0 && peers_g@[p].dht_key == k;
+                    assert(peers_g@.contains_key(p));
+                }
+            }""",
+}
+it["outline_tail"] = dict(it["outline_tail"])
+it["outline_tail"]["spec"] = "    ensures tail_post(all_nodes@, count, *key, r@),"
+it["outline_tail"]["call"] = """let ghost all = all_nodes@; let ghost seen = seen_keys@;
+        let r = verif_sort_take_tail(all_nodes, key, count);
+        proof {
+            assert(verif_found == found_or_empty(dht_g, DhtKey(*key), count));
+            assert forall|k: Key| #[trigger] known(self, peers_g@, verif_found, k) implies named_or_not_closer(r@, count, *key, k) by {
+                lemma_local_answer(self, all, seen, count, *key, r@, k);
+            }
+            assert forall|i: int, j: int| 0 <= i < j < r@.len() implies (#[trigger] r@[i]).cached_dht_key.is_some() && (#[trigger] r@[j]).cached_dht_key.is_some()
+                    && r@[i].cached_dht_key.unwrap().0 != r@[j].cached_dht_key.unwrap().0 by {
+                let (a, b) = choose|a: int, b: int| 0 <= a < all.len() && 0 <= b < all.len() && a != b && #[trigger] r@[i] == all[a] && #[trigger] r@[j] == all[b];
+                if a < b { assert(all[a].cached_dht_key.unwrap().0 != all[b].cached_dht_key.unwrap().0); } else { assert(all[b].cached_dht_key.unwrap().0 != all[a].cached_dht_key.unwrap().0); }
+            }
+        }
+        r"""
+it["spec"] = """
+    ensures
+        r@.len() <= count, // @C02/local/never_more_than_count_entries
+        keys_distinct(r@), // @C02/local/each_peer_is_named_once_under_a_single_identifier
+        forall|k: Key| #[trigger] known(self, peers_g@, found_or_empty(dht_g, DhtKey(*key), count), k)
+            ==> named_or_not_closer(r@, count, *key, k), // @C02/local/no_known_peer_that_is_closer_than_a_named_one_is_left_out
+"""
+
+UNITS["mgr"]["trusted"] += [
+    "ASSUMED (tail_post): the outlined tail `sort_by(compare_node_distance); into_iter().take(count).collect()` returns the first min(count, len) elements of a reordering of the list that is ascending under the comparator (std stable sort; the comparator is a total preorder: lemma_rank_cmp_is_a_total_preorder) -- every element left out is ranked no earlier than every element kept",
+    "opaque: is_local_peer_id is a function of (manager, id text); NodeId's Display text is a function of the id; DhtCoreEngine::find_nodes returns some entries or an error (its exactness is the bucket unit's find_closest_nodes contract; the async wrapper find_nodes itself is not extracted)",
+]
+
+# logging statements have no effect on any value a contract mentions: dropped wherever they occur (echoed in the evidence)
+_ALL_LOG = ["tracing::warn!", "tracing::trace!", "tracing::debug!", "tracing::info!", "tracing::error!", "warn!", "debug!", "info!", "trace!", "error!"]
+for _u in ("keystore", "placement"):
+    for _it in UNITS[_u]["items"]:
+        _it["drop_macros"] = sorted(set(list(_it.get("drop_macros", [])) + _ALL_LOG), key=len, reverse=True)
